@@ -82,7 +82,8 @@ model says).
 /verif/harness/              Rust: wvh dump-consts | run Cxx | fsop … | c05child …
 /verif/tools/                propcfg.py (rule, trusted base per property), manifest_text.py, drivers.py
                              (process-level drivers: strace, CLI sandbox, MT stress, reference codecs),
-                             mkmanifest.py, mkdesign.py, seedtest.sh, confirm_seed*.sh, record_seed.sh
+                             mkmanifest.py, mkdesign.py, seedtest.sh, confirm_seed*.sh, record_seed*.sh, mkseedprompt.py,
+                             seedround.sh / seedone.sh / seedregress.sh (seeding rounds and their regression)
 /verif/known_findings.jsonl  genuine defects: "fixed" (with /repo commit) and "finding" (recorded, by tag)
 /verif/seeded/<id>-m<k>/     seeded breaking changes: patch.diff, demo, notes, confirmation log, meta.json
 /verif/evidence/Cxx.json     rewritten by every run
@@ -107,7 +108,9 @@ where the property lives outside a function call (C09, C11, C12, C19, C20, C01, 
   When a proof or the correspondence breaks, the check first looks for a concrete failing input: the oracle
   stream of the same run, then one more run of the thorough generator. If none is found the line ends with
   `no-failing-input-found` and the replay file names the theorem or the first disagreeing request line;
-* **exit 3** — the machinery itself could not be built (not a verdict).
+* a harness that no longer compiles against /repo's working tree (a public signature it uses changed) or a failing
+  constant dump means the tie cannot be established: reported as `VIOLATION … no-failing-input-found` with a replay
+  file holding the compiler output (exit 1), not as a tool failure.
 
 The known-findings file is never written at run time. `fixed` entries suppress nothing. Tags are specific to
 a mechanism (e.g. `interop-file-key-from-full-path`), and inside the region a finding covers the checks keep a
@@ -126,7 +129,8 @@ conventions are applied), so a different defect in the same region is still repo
 * the harness (generators, canonicalisers, oracles), `check`, `drivers.py`; rustc, std, the OS; strace for C12;
 * CPython's zlib/bz2 as independent codecs in C02; MD5 is an abstract function in C08/C10 theorems (its
   executable Spec is validated against the md-5 crate); RSA and MD5 strength are assumed in C10;
-* **modelled, not verified** (per property in §5/§6): compression codecs (a codec table supplied per case),
+* **modelled, not verified** (per property in §5/§6): third-party compression codecs (a codec table supplied per case;
+  the in-tree sparse codec is modelled and proved in C03),
   filesystem semantics (C12 models the syscall trace), thread scheduling (C19: lock-order graph + stress),
   JPEG/DXT pixel content, colour quantisation, the real parsers' memory safety (C05 runs them).
 
@@ -218,7 +222,8 @@ Each change was produced by a sub-agent that saw only the property text, compile
 suite, and was confirmed here in a scratch worktree (`tools/confirm_seed*.sh`: tests pass with the change, the
 demonstration fails with it and passes without). `tools/seedtest.sh <patch> Cxx` applies it to /repo, runs the
 check, and reverts. Two rounds were run (m1/m2, then m3/m4 by agents that were also told what had already been
-found, so that they would look elsewhere): 80 changes, all caught by the current checks. The first version of
+found, so that they would look elsewhere): 80 changes; `tools/seedregress.sh` re-runs all of them against the current checks: 79 are caught, one (C12-m2)
+no longer breaks the property since a later repair of /repo and is rightly not reported. The first version of
 the checks missed 6 of the first 40 and 19 of the second 40; every miss led to a stronger generator or oracle
 (marked *strengthened*), never to a special case for the seed, and four of those strengthenings exposed genuine
 defects of the unchanged code (D50, D51, D52 and, through the agents' side remarks, D53..D55).
@@ -228,7 +233,15 @@ def section9():
     out = ["| seed | needs to manifest | detected by |", "|---|---|---|"]
     for d in sorted(glob.glob(os.path.join(V, "seeded/*/meta.json"))):
         m = json.load(open(d)); sid = os.path.basename(os.path.dirname(d))
-        out.append("| %s | %s | %s |" % (sid, m.get("needs_to_manifest", "").replace("|", "/"), m.get("detected_by", "").replace("|", "/")))
+        det = m.get("detected_by", "")
+        cj = os.path.join(os.path.dirname(d), "check.json")
+        if os.path.exists(cj):
+            c = json.load(open(cj))
+            if c.get("violation_lines"):
+                det += " — last regression run: VIOLATION, tags " + ", ".join("`%s`" % t for t in c.get("tags", [])[:4]) + (" (no failing input found)" if c.get("no_failing_input_found") else "")
+        if m.get("superseded"):
+            det = "SUPERSEDED — " + m["superseded"]
+        out.append("| %s | %s | %s |" % (sid, m.get("needs_to_manifest", "").replace("|", "/"), det.replace("|", "/")))
     out.append("\n*Round 2, missed at first:* C02-m3, C03-m3, C03-m4, C05-m3, C05-m4, C06-m3, C09-m3, C10-m3, C10-m4, C11-m4, C13-m4, "
                "C14-m3, C15-m4, C16-m4, C17-m4, C19-m3, C19-m4, C20-m3, C20-m4 (caught only through a broken obligation, "
                "without a failing input, at first: C02-m4, C07-m3, C09-m4). What was added is listed per property under "
